@@ -28,7 +28,7 @@ HEADER_SETS = [None, {"X-Custom": "v"}, {"x-latin": "é", "Cache-Control": "no-s
 COOKIE_SETS = [[], [("a", "1", {})], [("n", "é;x", {"max_age": 10, "httponly": True}), ("d", "", {"expires": 0, "samesite": "none"})],
                [("abc\n", "def\n", {}), ("k", "a\r\nset-cookie: x=1", {}), ("z\0", "\n", {})]]
 REDIRECTS = ["/to/é?q=1", "/caf%C3%A9/中文", "/a%20b\tc", "https://h.example/p?x=%41&y=ü#f", "/%", "/x\r\nlocation: /evil", "", "//host/p"]
-NAMES = [None, "plain.txt", "é.txt", "中.txt", 'q"uote.bin']
+NAMES = [None, "plain.txt", "é.txt", "中.txt", 'q"uote.bin', "prices € 2024.pdf", "Report – Q3.pdf", "Šœ™.txt"]
 
 
 def mod_for(iface):
@@ -44,6 +44,7 @@ def small_recipes():
         "bytes": lambda m, st, h: m.PlainTextResponse(b"\x00\xff", st, h),
         "empty": lambda m, st, h: m.PlainTextResponse("", st, h),
         "html": lambda m, st, h: m.HTMLResponse("<b>x</b>", st, h, charset="latin-1"),
+        "json_kw": lambda m, st, h: m.JSONResponse({"b": 1, "a": [1, 2]}, st, h, indent=2, sort_keys=True, ensure_ascii=True),
         "json": lambda m, st, h: m.JSONResponse({"k": [1, None, "中"]}, st, h),
     }
     for ri, target in enumerate(REDIRECTS):
@@ -266,9 +267,11 @@ def run_shard(desc, tier):
             with open(p, "wb") as f:
                 f.write(bytes(range(10)))
             ranges = [None, "bytes=0-3", "bytes=0-5", "bytes=2-9", "bytes=0-0,5-6", "bytes=0-3,6-9", "bytes=5-4", "bytes=20-", "nonsense", "bytes=-0", "bytes=0-2,20-"]
-            for dn, rng, method, chunk in itertools.product(NAMES, ranges, ("GET", "HEAD"), (None, 1, 2, 3, 4)):
-                name = f"file download_name={dn!r} range={rng!r} {method} chunk={chunk}"
-                headers = [("Range", rng)] if rng else []
+            for dn, rng, method, chunk, ifr in itertools.product(NAMES, ranges, ("GET", "HEAD"), (None, 1, 2, 3, 4), (None, '"stale"', "")):
+                if ifr is not None and (chunk not in (None, 3) or dn not in (None, "é.txt")):
+                    continue
+                name = f"file download_name={dn!r} range={rng!r} if_range={ifr!r} {method} chunk={chunk}"
+                headers = ([("Range", rng)] if rng else []) + ([("If-Range", ifr)] if ifr is not None else [])
 
                 def make():
                     kw = {} if chunk is None else {"chunk_size": chunk}
